@@ -163,6 +163,9 @@ def stepState {B H : Type} (env : Env B H) (c : Codec H) (nl : Nat) :
       | .error e => .inl (.err (.ser e), { buffer := buf, state := c.state }, 0)
       | .ok (items, _) =>
         if len < 2 then .inl (.panic .index, { buffer := buf, state := c.state }, 0)   -- `msg_len as usize - 2`
+        else if items = 0 ∧ len - 2 = 0 then
+          -- an empty list of headers (since /repo 11bd5ac16; `BadMessage` before): delivered, back to `None`
+          .inl (.msg (.headers [] 0), { buffer := buf, state := .none }, 0)
         else .inr ({ buffer := buf, state := .blockHeaders (len - 2) items [] },
                    min HEADER_BATCH_SIZE items * env.hdrMem)
     else
